@@ -19,6 +19,10 @@ Observation compared with the Lean model: after every read, the quads and the (n
 """
 import io
 import json as _json
+import os
+import re
+import shutil
+import tempfile
 import warnings
 
 import core  # noqa: F401
@@ -160,6 +164,49 @@ QT = [
 FRESH_MARKS = ("BNODE()", "RAND()", "NOW()", "UUID()", "[ ")
 
 
+# documents a FROM / FROM NAMED clause can LOAD (QueryContext.load): written into a temp dir per case, named in the
+# case by placeholders so that a replay does not depend on the directory
+DOCS = {
+    "<doc:ttl>": ("a.ttl", "@prefix e: <http://e/> .\ne:b e:p e:c .\ne:a e:q \"1\" .\n"),
+    "<doc:nt>": ("b.nt", "<http://e/c> <http://e/p> \"x\"@en .\n<http://e/b> <http://e/q> <http://e/C> .\n"),
+    "<doc:bad>": ("bad.ttl", "this is <not RDF in any syntax ;;\n"),
+    "<doc:missing>": ("missing.ttl", None),
+}
+DOC_TOK = {"<doc:ttl>": "i50", "<doc:nt>": "i51", "<doc:bad>": "i52", "<doc:missing>": "i53"}
+FROM_BODIES = [
+    "SELECT ?s ?p ?o {C} WHERE { ?s ?p ?o }",
+    "SELECT ?s ?o {C} WHERE { ?s {P} ?o } ORDER BY ?s ?o",
+    "SELECT ?g ?s ?o {C} WHERE { { ?s ?p ?o } UNION { GRAPH ?g { ?s ?p ?o } } }",
+    "SELECT (COUNT(*) AS ?n) {C} WHERE { GRAPH ?g { ?s ?p ?o } }",
+    "SELECT ?s {C} WHERE { ?s {P} ?o . GRAPH {G} { ?s ?p2 ?o2 } }",
+    "ASK {C} { ?s ?p ?o }",
+    "ASK {C} { GRAPH ?g { ?s {P} ?o } }",
+    "CONSTRUCT { ?s ?p ?o } {C} WHERE { ?s ?p ?o }",
+    "DESCRIBE ?s {C} WHERE { ?s ?p ?o }",
+]
+
+
+def gen_from_query(rng, quads):
+    """a query whose dataset clause mixes known non-empty / empty / unknown graphs and loadable documents"""
+    nonempty = [GN[g].n3() for g in sorted({q[3] for q in quads} & {1, 2})]
+    others = ["<urn:g:1>", "<urn:g:2>", "<urn:g:unknown>"]
+    docs = ["<doc:ttl>", "<doc:nt>", "<doc:ttl>", "<doc:nt>", "<doc:bad>", "<doc:missing>"]
+
+    def src():
+        r = rng.random()
+        if nonempty and r < 0.4:
+            return rng.choice(nonempty)
+        if r < 0.8:
+            return rng.choice(docs if rng.random() < 0.8 else docs[:2])
+        return rng.choice(others)
+    nf, nn = rng.choice([1, 2, 2, 2, 3]), rng.choice([0, 0, 1, 1, 2])
+    clauses = ["FROM " + src() for _ in range(nf)] + ["FROM NAMED " + src() for _ in range(nn)]
+    rng.shuffle(clauses)
+    q = rng.choice(FROM_BODIES).replace("{C}", " ".join(clauses))
+    q = q.replace("{P}", _n3(TERM[rng.choice(PRED)])).replace("{G}", rng.choice(nonempty + others + docs[:2]))
+    return q
+
+
 def _n3(t):
     return t.n3()
 
@@ -169,11 +216,16 @@ def inst_query(rng, tmpl):
         return _n3(TERM[rng.choice(ids)])
     lits = [20, 21, 22, 23, 24, 27]
     giris = [1, 2, 9]
+
+    def gname():     # a graph IRI; sometimes a document that FROM / FROM NAMED can load
+        if rng.random() < 0.15:
+            return rng.choice(["<doc:ttl>", "<doc:nt>", "<doc:bad>"])
+        return _n3(GN[rng.choice(giris)])
     q = tmpl
     for key, f in (("{S2}", lambda: pick(IRIS)), ("{S}", lambda: pick(IRIS)), ("{P2}", lambda: pick(PRED + [13])),
                    ("{P}", lambda: pick(PRED)), ("{O}", lambda: pick([i for i in OBJ if i not in (4, 5, 6)])),
-                   ("{L}", lambda: pick(lits)), ("{G2}", lambda: _n3(GN[rng.choice(giris)])),
-                   ("{G}", lambda: _n3(GN[rng.choice(giris)])), ("{N}", lambda: str(rng.randint(1, 3)))):
+                   ("{L}", lambda: pick(lits)), ("{G2}", lambda: gname()),
+                   ("{G}", lambda: gname()), ("{N}", lambda: str(rng.randint(1, 3)))):
         while key in q:
             q = q.replace(key, f(), 1)
     return q
@@ -255,6 +307,8 @@ def gen_read(rng, cfg, quads, kind=None):
     if kind == "ser":
         fmt = rng.choice(SER_FORMATS + ["json-ld", "json-ld", "trig", "trix", "hext", "nquads"])
         return ["ser", fmt, rng.choice(OPTS_FOR.get(fmt, ["plain", "base", "bytes", "stream"]))]
+    if kind == "q" and multi and rng.random() < 0.3:
+        return ["q", gen_from_query(rng, quads), rng.choice([0, 0, 0, 0, 1, 1, 4, 8, 2, 5])]
     if kind == "q":
         t = rng.choice(QT)
         if not multi and rng.random() < 0.5:
@@ -482,6 +536,8 @@ def do_read(case, top, target, rd):
         return Text(fmt, out, fmt in QUAD_FORMATS and isinstance(target, ConjunctiveGraph))
     if api == "q":
         _, text, flags = rd
+        for ph, url in _DOC_URLS.items():
+            text = text.replace(ph, url)
         old = (rsparql.SPARQL_LOAD_GRAPHS, rsparql.SPARQL_DEFAULT_GRAPH_UNION)
         try:
             if flags & 1:
@@ -738,7 +794,30 @@ def api_name(rd):
 _PREPARED = {}
 
 
+_DOC_URLS = {}
+
+
 def run_impl(case):
+    """writes the loadable documents into a temp dir (removed afterwards) when a read names one"""
+    tmp = None
+    _DOC_URLS.clear()
+    if any(r[0] == "q" and "<doc:" in r[1] for r in case["reads"]):
+        tmp = tempfile.mkdtemp(prefix="c13docs")
+        for ph, (fn, body) in DOCS.items():
+            path = os.path.join(tmp, fn)
+            if body is not None:
+                with open(path, "w", encoding="utf-8") as f:
+                    f.write(body)
+            _DOC_URLS[ph] = "<file://" + path + ">"
+    try:
+        return _run_impl(case)
+    finally:
+        _DOC_URLS.clear()
+        if tmp is not None:
+            shutil.rmtree(tmp, ignore_errors=True)
+
+
+def _run_impl(case):
     _PREPARED.clear()
     top, target = build(case)
     obs, viol, stats = [], [], {}
@@ -784,6 +863,10 @@ def run_impl(case):
         bump("api_" + rd[0])
         if rd[0] == "ser":
             bump("fmt_" + rd[1])
+        if rd[0] == "q" and " FROM " in rd[1]:
+            bump("q_from")
+            if "<doc:ttl>" in rd[1] or "<doc:nt>" in rd[1]:
+                bump("q_from_loadable_doc" + ("_load_off" if rd[2] & 1 else ""))
     if not case["twice"] and reads:
         again = _call(case, top, target, reads[0])
         now = check_state(0, reads[0], "repeated after the sequence")
@@ -821,12 +904,10 @@ def _w(x):
 
 
 def _from_clauses(text):
-    """(FROM names, FROM NAMED names) of a generated query, as graph tokens"""
-    import re
+    """the dataset clause of a generated query, in order: ["f:<tok>" | "n:<tok>" …]"""
     rev = {v.n3(): GTOK[k] for k, v in GN.items()}
-    named = [rev[m] for m in re.findall(r"FROM NAMED (<[^>]*>)", text)]
-    dflt = [rev[m] for m in re.findall(r"FROM (<[^>]*>)", text)]
-    return dflt, named
+    rev.update(DOC_TOK)
+    return [("n:" if named else "f:") + rev[iri] for named, iri in re.findall(r"FROM (NAMED )?(<[^>]*>)", text)]
 
 
 def model_read(case, rd):
@@ -846,9 +927,9 @@ def model_read(case, rd):
             return "read ctxs"
         return "read pure"           # triple formats iterate the default view; patch walks quads()
     if api == "q":
-        dflt, named = _from_clauses(rd[1])
+        clauses = _from_clauses(rd[1])
         gvar = 1 if "GRAPH ?g" in rd[1] else 0
-        return f"read query {gvar} {','.join(dflt) or '-'} {','.join(named) or '-'}"
+        return f"read query {gvar} {','.join(clauses) or '-'} {0 if rd[2] & 1 else 1}"
     if api == "ctx":
         f, g, how = rd[1], GTOK[rd[5]], rd[6]
         if f in ("graphs", "contexts", "graphs_t", "get_graph"):
